@@ -601,7 +601,8 @@ def leaf_pool() -> list[Any]:
     ]
 
 
-KEYS = ("a", "_b1", "has space", "é", "1a", "a.b", "")
+KEYS = ("a", "_b1", "has space", "é", "1a", "a.b", "", "aé", "e\u0301")   # last two: a non-ASCII letter / combining mark AFTER an
+#                                                                          ASCII start - a Python identifier, not an MLIR bare id (C06-m8)
 
 
 def containers1(leaves: Sequence[Any], kv: Sequence[Any]) -> list[Any]:
@@ -642,7 +643,7 @@ def fam_containers(tier: str) -> Family:
                      "arrays of length <= 2 and dictionaries with <= 2 entries over a 16-leaf pool; depth 2 over 4 leaves + 8 containers")
 
 
-SYMS = ("a", "a.b", "needs quote", "0", "é", 'q"\\', "", "_x$1", "\n")
+SYMS = ("a", "a.b", "needs quote", "0", "é", 'q"\\', "", "_x$1", "\n", "aé")
 
 
 def fam_symbol(tier: str) -> Family:
